@@ -39,15 +39,13 @@ func (e *Engine) installExternals() {
 	x["(*sync.WaitGroup).Wait"] = func(fr *frame, a []Value) Value { e.wgWait(fr.g, a[0].(*Value)); return nil }
 	x["(*sync.Once).Do"] = func(fr *frame, a []Value) Value {
 		p := a[0].(*Value)
-		m := e.mutexOf(p)
-		e.mutexLock(fr.g, p)
+		e.opLock(fr.g, p, "Once.Do")
 		done := e.onceDone[p]
 		if !done {
 			e.onceDone[p] = true
 			e.call(fr, token.NoPos, a[1], nil)
 		}
-		_ = m
-		e.mutexUnlock(fr.g, p)
+		e.opUnlock(fr.g, p)
 		return nil
 	}
 
@@ -62,9 +60,9 @@ func (e *Engine) installExternals() {
 	}
 	x["(*sync.Map).Load"] = func(fr *frame, a []Value) Value {
 		p := a[0].(*Value)
-		e.mutexLock(fr.g, p)
+		e.opLock(fr.g, p, "sync.Map")
 		v, ok := smap(p).lookup(e, a[1])
-		e.mutexUnlock(fr.g, p)
+		e.opUnlock(fr.g, p)
 		if !ok {
 			return Tuple{Iface{}, false}
 		}
@@ -72,15 +70,15 @@ func (e *Engine) installExternals() {
 	}
 	x["(*sync.Map).Store"] = func(fr *frame, a []Value) Value {
 		p := a[0].(*Value)
-		e.mutexLock(fr.g, p)
+		e.opLock(fr.g, p, "sync.Map")
 		smap(p).insert(e, a[1], a[2])
-		e.mutexUnlock(fr.g, p)
+		e.opUnlock(fr.g, p)
 		return nil
 	}
 	x["(*sync.Map).LoadOrStore"] = func(fr *frame, a []Value) Value {
 		p := a[0].(*Value)
-		e.mutexLock(fr.g, p)
-		defer e.mutexUnlock(fr.g, p)
+		e.opLock(fr.g, p, "sync.Map")
+		defer e.opUnlock(fr.g, p)
 		if v, ok := smap(p).lookup(e, a[1]); ok {
 			return Tuple{v, true}
 		}
@@ -89,13 +87,14 @@ func (e *Engine) installExternals() {
 	}
 	x["(*sync.Map).Delete"] = func(fr *frame, a []Value) Value {
 		p := a[0].(*Value)
-		e.mutexLock(fr.g, p)
+		e.opLock(fr.g, p, "sync.Map")
 		smap(p).delete(e, a[1])
-		e.mutexUnlock(fr.g, p)
+		e.opUnlock(fr.g, p)
 		return nil
 	}
 	x["(*sync.Map).Range"] = func(fr *frame, a []Value) Value {
 		p := a[0].(*Value)
+		e.yield(fr.g, "sync.Map")
 		for _, h := range smap(p).liveKeys() {
 			en := h.(*mapEntry)
 			if en.dead {
